@@ -8,6 +8,8 @@ def P(quick_runs, thorough_runs, level="exploration", quick_budget=40, thorough_
     return d
 
 PROPS = {
+    "C06": P(60000, 1500000, expect_reach=["c06.gates_released_after_join_issued"],
+             assumptions=["blocked units are released by an external thread only after the join/finalize that has to wait for them was issued; nobody pushes to a pool whose only stream is being joined"]),
     "C07": P(150000, 4000000, expect_reach=["lin.decided", "pool.empty_pops", "pool.blocking_pop_got_unit"],
              assumptions=["clients respect the producer/consumer counts of the access mode; ABT_pool_remove is issued only by the sole consumer for a unit whose push has returned (API precondition: the unit is in the pool)",
                           "histories <= 48 operations, search capped at 1e6 nodes (undecided histories are counted, never passed or failed)"]),
